@@ -6,13 +6,20 @@ void harness(void) {
   cg_init();
   Node p = {0}, d = {0}, mnode = {0}, v = {0}, n = {0};
   Member mem = {0};
+#ifdef BOOLUNIT   /* a _Bool bit-field: unsigned by nature although type.c does not set is_unsigned for _Bool; width 1 */
+  Type FT = {TY_BOOL, 1, 1, 0};
+#else
   Type FT = {SZ == 1 ? TY_CHAR : SZ == 2 ? TY_SHORT : SZ == 4 ? TY_INT : TY_LONG, SZ, SZ, UNS};
+#endif
   Type ST = {TY_STRUCT, 16, 8};
   IN(uint64_t, addr_off); IN(int, bo); IN(int, bw); IN(int, moff); IN(uint64_t, val); IN(int, probe);
   ASSUME(addr_off >= 16 && addr_off <= 96 && addr_off % 8 == 0);
   ASSUME(moff >= 0 && moff <= 8 && moff % SZ == 0);                       /* storage unit aligned to its type (C08.3) */
   ASSUME(bw >= 1 && bw <= 64 && bo >= 0 && bo <= 64 && bo + bw <= SZ * 8);                        /* field inside its unit (C08.3) */
   ASSUME(0 <= probe && probe < GM_DM);
+#ifdef BOOLUNIT
+  ASSUME(bw == 1);
+#endif
   uint64_t base = GM_DM_BASE + addr_off;
   mem.ty = &FT; mem.offset = moff; mem.is_bitfield = 1; mem.bit_offset = bo; mem.bit_width = bw;
   cg_node(&p, ND_NULL_EXPR, &CGT[TI_PTR]); cg_node(&d, ND_DEREF, &ST); d.lhs = &p;
@@ -23,7 +30,11 @@ void harness(void) {
   for (int i = 0; i < 8; i++) if (i < SZ) unit |= (uint64_t)gm_dm[unit_addr + i] << (8 * i);
   uint64_t fmask = bw == 64 ? ~0UL : ((1UL << bw) - 1);
   unsigned char before = gm_dm[probe];
+#ifdef BOOLUNIT
+  SpecTy ft = {1, 1, 1};
+#else
   SpecTy ft = {SZ, UNS, 0};
+#endif
 #if WRITE
   cg_node(&v, ND_NULL_EXPR, &FT); cg_node(&n, ND_ASSIGN, &FT); n.lhs = &mnode; n.rhs = &v;
   ASSUME(spec_canon(ft, (int64_t)val));
